@@ -114,6 +114,12 @@ Proof.
   - unfold Store.Inv. cbn. repeat split; constructor.
   - cbn. tauto.
 Qed.
+(* loosen_object: writing the content a key reads back as into a loose file changes what no key reads back as *)
+Theorem C02_loosen_changes_no_view : forall s n chunks k0,
+  Inv H inflate (fst s) -> pending (snd s) = [] -> stored inflate (fst s) k0 = Some (concat chunks) ->
+  Inv H inflate (fst (run_events s (p_add_loose H (fst s) n chunks))) /\
+  forall k, stored inflate (fst (run_events s (p_add_loose H (fst s) n chunks))) k = stored inflate (fst s) k.
+Proof. exact (loosen_changes_no_view H inflate H_inj). Qed.
 End C02.
 Print Assumptions C02_views_are_the_map.
 Print Assumptions C02_add_loose_is_put.
@@ -127,3 +133,4 @@ Print Assumptions C02_add_to_pack_is_put_all.
 Print Assumptions C02_import_is_put_all.
 Print Assumptions C02_pack_changes_no_view.
 Print Assumptions C02_any_history_is_a_map.
+Print Assumptions C02_loosen_changes_no_view.
